@@ -39,6 +39,7 @@ type Op struct {
 	Old    uint64     `json:"old,omitempty"`
 	New    uint64     `json:"new,omitempty"`
 	Bad    string     `json:"bad,omitempty"` // which contract this request violates on purpose ("" = none)
+	Quiet  bool       `json:"quiet,omitempty"` // version request after which nothing is read (the new version stays untouched)
 }
 
 type History struct {
@@ -74,6 +75,7 @@ type Exec struct {
 	inUni    map[uint64]bool
 	layout   []uint64
 	last     map[int]*Snap // latest snapshot per version
+	quiet    map[int]bool  // versions no labelmap request has touched yet
 	steps    []Step
 }
 
@@ -98,7 +100,7 @@ func newExec(h *History) (*Exec, error) {
 	if err := dv.NewInstance(root, "labelmap", inst, map[string]string{"BlockSize": fmt.Sprintf("%d,%d,%d", bs, bs, bs)}); err != nil {
 		return nil, err
 	}
-	e := &Exec{h: h, srv: Srv{h.G}, uuids: []string{root}, parent: []int{-1}, locked: []bool{false}, inUni: map[uint64]bool{}, last: map[int]*Snap{}}
+	e := &Exec{h: h, srv: Srv{h.G}, uuids: []string{root}, parent: []int{-1}, locked: []bool{false}, inUni: map[uint64]bool{}, last: map[int]*Snap{}, quiet: map[int]bool{}}
 	e.layout = h.G.PaintAll(h.Layout)
 	for _, b := range h.Layout {
 		e.addUni(b.L)
@@ -336,24 +338,60 @@ func (e *Exec) step(op Op) {
 	e.addUni(r.Labels...)
 	st := Step{Op: op, Resp: r}
 	var vs []int
+	addV := func(v int) {
+		if v < 0 || v >= len(e.uuids) {
+			return
+		}
+		for _, x := range vs {
+			if x == v {
+				return
+			}
+		}
+		vs = append(vs, v)
+	}
 	switch op.K {
 	case "observe":
 		for v := range e.uuids {
-			vs = append(vs, v)
+			addV(v)
 		}
 	case "newversion", "branch":
 		if r.OK {
-			vs = []int{len(e.uuids) - 1}
+			if op.Quiet {
+				e.quiet[len(e.uuids)-1] = true
+			} else {
+				addV(len(e.uuids) - 1)
+			}
+		}
+	case "commit":
+		if !op.Quiet {
+			addV(op.V)
 		}
 	default:
+		// the touched version first; then its ancestors that nothing has looked at yet, its parent,
+		// and one more version in rotation: operations must stay invisible there
+		addV(op.V)
 		if op.V < len(e.uuids) {
-			vs = []int{op.V}
+			e.quiet[op.V] = false
+			for a := e.parent[op.V]; a >= 0; a = e.parent[a] {
+				if e.quiet[a] {
+					e.quiet[a] = false
+					addV(a)
+				}
+			}
+			addV(e.parent[op.V])
 		}
 	}
-	if op.K != "observe" && len(e.uuids) > 1 {
-		o := len(e.steps) % len(e.uuids)
-		if len(vs) == 0 || o != vs[0] {
-			vs = append(vs, o)
+	if op.K != "observe" && !op.Quiet && len(e.uuids) > 1 {
+		for k := 0; k < len(e.uuids); k++ {
+			if o := (len(e.steps) + k) % len(e.uuids); !e.quiet[o] {
+				addV(o)
+				break
+			}
+		}
+	}
+	if op.K == "observe" {
+		for v := range e.uuids {
+			e.quiet[v] = false
 		}
 	}
 	for _, v := range vs {
@@ -381,9 +419,10 @@ func (e *Exec) probe() []string {
 				errs = append(errs, fmt.Sprintf("step %d (%s): %s", i, st.Op.K, m))
 			}
 			p := prev[sn.Ver]
-			if p == nil && sn.Ver > 0 && (st.Op.K == "newversion" || st.Op.K == "branch") {
-				// a new version starts as a copy of its parent
-				p = prev[st.Op.V]
+			for a := sn.Ver; p == nil && a > 0; {
+				// a version seen for the first time shows what its nearest observed ancestor shows
+				a = e.parent[a]
+				p = prev[a]
 			}
 			if p != nil {
 				operated := k == 0 && st.Op.K != "commit" && st.Op.K != "newversion" && st.Op.K != "branch" && st.Resp.OK
